@@ -2411,7 +2411,6 @@ func (e *executor) executeSetColumnAttrs(ctx context.Context, index string, c *p
 	// Copy args and remove reserved fields.
 	attrs := pql.CopyArgs(c.Args)
 	delete(attrs, "_"+columnLabel)
-	delete(attrs, "field")
 
 	// Set attributes.
 	if err := idx.ColumnAttrStore().SetAttrs(col, attrs); err != nil {
